@@ -12,6 +12,7 @@ structure Node where
   net : Bool := true
   cand : Bool := true
   ident : Nat := 0
+  remoteId : Option Int := none      -- id of the remote halt lock this node believes to hold
 
 structure Cl where
   nodes : Array Node := #[]
@@ -19,6 +20,8 @@ structure Cl where
   allow : Option Nat := none
   nextIdent : Nat := 1
   lag : Bool := false
+  halt : Option (Nat × Int × Bool × Nat × UInt64) := none   -- (primary, id, short-lived, position at grant)
+  ttlShort : Bool := false
   armed : Option Nat := none                    -- node whose next snapshot is suspended after its capture
   pending : Option (Nat × Nat × LTXFile) := none -- (primary, replica, captured snapshot) of a suspended stream
 
@@ -98,6 +101,19 @@ def settleArmed (c : Cl) : Cl :=
            { c1 with nodes := c1.nodes.modify i (fun r => { r with net := true }), armed := none, pending := some (pk, i, f), lag := c1.lag })
   | _, _ => settle c0
 
+/-- the primary's halt lock goes away (release or expiry): its guard set unlocks -/
+def releaseHalt (c : Cl) : Cl :=
+  match c.halt with
+  | none => c
+  | some (p, _, _, _, _) =>
+    match c.nodes[p]? with
+    | none => { c with halt := none }
+    | some pn =>
+      let e := match pn.eng.held with
+        | some i => { pn.eng with locks := pn.eng.locks.unlockAll i, held := none }
+        | none => pn.eng
+      { (c.setNode p { pn with eng := e }) with halt := none }
+
 def stamp (e : Eng) (ident : Nat) : Eng :=
   { e with ltx := e.ltx.map fun f => if f.nodeID = 0 then { f with nodeID := ident } else f }
 
@@ -120,8 +136,26 @@ def step (c : Cl) (line : String) : Cl × String :=
      | none => (c, "bad-op")
      | some (k, n) =>
        if !n.up then (c, "down") else
-       let (e, o) := EngineD.step n.eng (" ".intercalate rest)
-       (c.setNode k { n with eng := stamp e n.ident }, o))
+       -- would the primary accept a transaction forwarded by this node now?
+       let okRemote : Bool := match c.holder, c.halt, n.remoteId with
+         | some p, some (hp, hid, _, _, _), some rid => p == hp && hid == rid && n.net
+         | _, _, _ => false
+       let (e, o) := EngineD.step { n.eng with remoteOK := okRemote } (" ".intercalate rest)
+       let e := stamp e n.ident
+       let c := c.setNode k { n with eng := e }
+       -- a commit under the remote halt lock was sent to the primary before it was finalised
+       if n.eng.remoteHalt && e.ltx.length > n.eng.ltx.length then
+         match c.holder, e.ltx.getLast? with
+         | some p, some f =>
+           (match c.nodes[p]? with
+            | some pn =>
+              let pe := match receiveTx pn.eng f with | .ok x => x | .error (x, _) => x
+              (settle (c.setNode p { pn with eng := pe }), o)
+            | none => (c, o))
+         | _, _ => (c, o)
+       -- a commit on the primary is streamed to the connected replicas at once
+       else if c.holder == some k && (e.posTxid != n.eng.posTxid || e.posChk != n.eng.posChk) && c.pending.isNone then (settle c, o)
+       else (c, o))
   | ["up", k] =>
     (match k.toNat? >>= fun k => c.nodes[k]?.map fun n => (k, n) with
      | none => (c, "bad-op")
@@ -158,6 +192,11 @@ def step (c : Cl) (line : String) : Cl × String :=
      | some (k, n) =>
        if !n.up then (c, "bad-op") else
        if c.holder ≠ some k then (c, "not-primary") else
+       -- a short-lived halt lock runs out while the demoted node waits for its write lock
+       let c := match c.halt with
+         | some (hp, _, true, _, _) => if hp = k then releaseHalt c else c
+         | _ => c
+       let n := (c.nodes[k]?).getD n
        let c := c.setNode k { n with eng := recoverEng { n.eng with primary := false } }
        (settle { c.recoverOthers k with holder := none }, "ok"))
   | ["net", k, v] =>
@@ -169,6 +208,71 @@ def step (c : Cl) (line : String) : Cl × String :=
        let n := { n with net := !off }
        let n := if off ∧ c.holder ≠ some k then { n with eng := recoverEng n.eng } else n
        (settleArmed (c.setNode k n), "ok"))
+  | ["halt-ttl", _, v] => ({ c with ttlShort := v == "short" }, "ok")
+  | ["halt-expire", k] =>
+    (match k.toNat?, c.halt with
+     | some k, some (p, _, true, _, _) => if p = k then (releaseHalt c, "ok") else (c, "ok")
+     | some _, _ => (c, "ok")
+     | none, _ => (c, "bad-op"))
+  | ["halt", k, id] =>
+    (match k.toNat? >>= fun k => c.nodes[k]?.map fun n => (k, n), id.toInt? with
+     | some (k, n), some id =>
+       if !n.up || !n.eng.hasDB then (c, "bad-op") else
+       if c.holder = some k then (c, "err primary") else
+       (match c.holder with
+        | none => (c, "err")
+        | some p =>
+          if !n.net then (c, "err") else
+          match c.nodes[p]? with
+          | none => (c, "err")
+          | some pn =>
+            -- the primary grants (or repeats) the lock
+            let granted : Option (Cl × Nat × UInt64) :=
+              match c.halt with
+              | some (hp, hid, _, t, ch) =>
+                if hp = p ∧ hid = id then some (c, t, ch) else none
+              | none =>
+                let pe := if pn.eng.hasDB then pn.eng else { pn.eng with hasDB := true, dbFile := some ByteArray.empty }
+                match pe.locks.tryAcquireWriteLock pe.walMode with
+                | (_, none) => none
+                | (t, some i) =>
+                  let e1 := { pe with locks := t, held := some i }
+                  let e2 := match Recovery.rollbackJournal e1 with
+                    | .ok s1 => (match checkpointNoLock s1 with | .ok s2 => s2 | .error _ => s1)
+                    | .error _ => e1
+                  some ({ (c.setNode p { pn with eng := e2 }) with halt := some (p, id, c.ttlShort, e2.posTxid, e2.posChk) }, e2.posTxid, e2.posChk)
+            match granted with
+            | none => (c, "err")
+            | some (c, t, ch) =>
+              let n' := { n with eng := { n.eng with remoteHalt := true }, remoteId := some id }
+              let c := c.setNode k n'
+              if n.eng.posTxid = t ∧ n.eng.posChk = ch then (c, s!"ok pos={t}:{EngineD.hex16 ch}")
+              else (releaseHalt c, "err"))
+     | _, _ => (c, "bad-op"))
+  | ["unhalt", k, id] =>
+    (match k.toNat? >>= fun k => c.nodes[k]?.map fun n => (k, n), id.toInt? with
+     | some (k, n), some id =>
+       if !n.up || !n.eng.hasDB then (c, "bad-op") else
+       let n' := if n.eng.remoteHalt ∧ n.remoteId = some id then
+           { n with eng := { recoverEng n.eng with remoteHalt := false }, remoteId := none } else n
+       let c := c.setNode k n'
+       if c.holder = some k then (c, "ok") else
+       (match c.holder with
+        | none => (c, "err")
+        | some p =>
+          if !n.net then (c, "err") else
+          match c.halt with
+          | some (hp, hid, _, _, _) => if hp = p ∧ hid = id then (settle (releaseHalt c), "ok") else (c, "ok")
+          | none => (c, "ok"))
+     | _, _ => (c, "bad-op"))
+  | ["crash", k] =>
+    (match k.toNat? >>= fun k => c.nodes[k]?.map fun n => (k, n) with
+     | none => (c, "bad-op")
+     | some (k, n) =>
+       if !n.up then (c, "bad-op") else
+       let c := c.setNode k { n with up := false, eng := { n.eng with primary := false } }
+       let c := if c.holder = some k then { c.recoverOthers k with holder := none } else c
+       (settle c, "ok"))
   | ["snap-arm", k] =>
     (match k.toNat? >>= fun k => c.nodes[k]?.map fun n => (k, n) with
      | none => (c, "bad-op")
@@ -192,6 +296,7 @@ def step (c : Cl) (line : String) : Cl × String :=
   | ["sync"] =>
     let c := settle c
     (c, if c.lag then "lag" else "ok")
+  | ["pause"] => (c, "ok")
   | ["roles"] =>
     (c, " ".intercalate ((List.range c.nodes.size).map fun i =>
       match c.nodes[i]? with
